@@ -116,13 +116,20 @@ def families_for(n, exact_only=False, rough=True):
 
 
 @st.composite
-def problem_recipe(draw, dims=(1, 2, 3, 4, 5), exact_only=False, families=None, densities=(10,)):
+def problem_recipe(draw, dims=(1, 2, 3, 4, 5), exact_only=False, families=None, densities=(10,), styles=False):
     n = draw(st.sampled_from(list(dims)))
     fams = families if families is not None else families_for(n, exact_only)
     fams = [f for f in fams if (f != "pwl1" or n == 1)]
     box = draw(boxes(n))
-    return {"n": n, "lower": box["lower"], "upper": box["upper"],
-            "obj": draw(objective(n, fams)), "density": draw(st.sampled_from(list(densities)))}
+    rec = {"n": n, "lower": box["lower"], "upper": box["upper"],
+           "obj": draw(objective(n, fams)), "density": draw(st.sampled_from(list(densities)))}
+    if styles:
+        # how the user-written problem hands its value back (see LoggedProblem): mostly the shipped convention
+        style = {"holder": draw(st.sampled_from(["same", "same", "same", "fresh"])),
+                 "valtype": draw(st.sampled_from(["float", "float", "np"]))}
+        if style != {"holder": "same", "valtype": "float"}:
+            rec["style"] = style
+    return rec
 
 
 @st.composite
